@@ -149,6 +149,8 @@ func ReplaceEnums(ana *analysis.Analysis, content string) string {
 			panic(fmt.Sprintf("unknown enum type %s in placeholder #[%s]", typeName, s))
 		}
 		enumValue := enum.Get(varName)
-		return fmt.Sprintf("%s /* %s.%s */", enumValue.Const.Val().ExactString(), typeName, varName)
+		// SQL uses single quote for strings
+		value := strings.ReplaceAll(enumValue.Const.Val().ExactString(), `"`, `'`)
+		return fmt.Sprintf("%s /* %s.%s */", value, typeName, varName)
 	})
 }
